@@ -220,6 +220,7 @@ inline std::pair<Variable *, std::string> resolve_nested_member_for_assignment(
         }
 
         if (!array_parent->struct_type_name.empty()) {
+            interpreter.ensure_array_index_in_bounds(*array_parent, index);
             interpreter.create_struct_variable(element_key,
                                                array_parent->struct_type_name);
             if (Variable *created = interpreter.find_variable(element_key)) {
